@@ -117,6 +117,8 @@ def same_multiset(xs, ys):
 class Sem:
     """A semantic diagram class over one atomic wire type, with a few generators of our own."""
 
+    has_dagger = True
+
     def __init__(self, name):
         self.name = name
         if name == "tensor":
@@ -137,6 +139,19 @@ class Sem:
             self.cls, self.ty = m.Diagram, (lambda n: m.PRO(n))
             self.gens = [m.Z(1, 2, 0.25), m.Z(2, 1), m.X(1, 1, 0.5), m.H, m.SWAP, m.Z(0, 1),
                          m.X(1, 0, 0.75), m.Z(2, 2, 0.125), m.X(0, 2), m.scalar(0.5)]
+        elif name == "biclosed":
+            from discopy import biclosed as m
+            self.cls, self.ty = m.Diagram, (lambda n: m.Ty(*(["x"] * n)))
+            B = lambda nm, i, o, **kw: m.Box(nm, self.ty(i), self.ty(o), **kw)
+            self.gens = [B("f", 1, 2), B("g", 2, 1), B("h", 1, 1), B("s", 0, 0), B("e", 1, 0),
+                         B("k", 0, 1), B("m", 2, 2, data=[1, 2]), B("h", 1, 1).dagger()]
+        elif name == "cartesian":
+            from discopy import cartesian as m
+            self.cls, self.ty = m.Diagram, (lambda n: m.PRO(n))
+            self.has_dagger = False          # cartesian boxes (python functions) have no dagger
+            self.gens = [m.Box("c", 1, 2, lambda x: (x, x)), m.Box("a", 2, 1, lambda x, y: x + y),
+                         m.Box("u", 1, 1, lambda x: x + 1), m.Box("k", 0, 1, lambda: 7),
+                         m.Box("m", 2, 2, lambda x, y: (y, x + y)), m.COPY, m.DISCARD, m.SWAP]
         else:
             raise ValueError(name)
         self.endo = [b for b in self.gens if len(b.dom) == len(b.cod) and len(b.dom) > 0]
@@ -193,10 +208,11 @@ def sem_laws(S, rng):
     yield "tensor_unit_l", lambda: I(unit) @ u, lambda: u, len(u), "d"
     yield "tensor_unit_r", lambda: u @ I(unit), lambda: u, len(u), "d"
     yield "tensor_eq_whisker", lambda: u @ v, lambda: u @ I(v.dom) >> I(u.cod) @ v, len(u) + len(v), "d"
-    yield "dagger_dagger", lambda: a[::-1][::-1], lambda: a, len(a), "d"
-    yield "dagger_method", lambda: a.dagger(), lambda: a[::-1], len(a), "d"
-    yield "dagger_id", lambda: I(a.dom)[::-1], lambda: I(a.dom), 0, "d"
-    yield "dagger_then", lambda: (a >> b)[::-1], lambda: b[::-1] >> a[::-1], len(a) + len(b), "d"
+    if S.has_dagger:
+        yield "dagger_dagger", lambda: a[::-1][::-1], lambda: a, len(a), "d"
+        yield "dagger_method", lambda: a.dagger(), lambda: a[::-1], len(a), "d"
+        yield "dagger_id", lambda: I(a.dom)[::-1], lambda: I(a.dom), 0, "d"
+        yield "dagger_then", lambda: (a >> b)[::-1], lambda: b[::-1] >> a[::-1], len(a) + len(b), "d"
     ab = a >> b
     for i in range(-len(ab) - 2, len(ab) + 3):
         yield "slice_then", (lambda i=i: ab[:i] >> ab[i:]), (lambda: ab), len(ab), "d"
@@ -214,7 +230,8 @@ def sem_laws(S, rng):
     yield "diagram_then_distrib", lambda: s4 >> (s + t), lambda: (s4 >> s) + (s4 >> t), 3, "s"
     yield "tensor_distrib_r", lambda: (s + t) @ r, lambda: (s @ r) + (t @ r), 3, "s"
     yield "tensor_distrib_l", lambda: q @ (s + t), lambda: (q @ s) + (q @ t), 3, "s:%d,%d,%d" % (2, 2, 1)
-    yield "dagger_distrib", lambda: (s + t)[::-1], lambda: s[::-1] + t[::-1], 3, "s"
+    if S.has_dagger:
+        yield "dagger_distrib", lambda: (s + t)[::-1], lambda: s[::-1] + t[::-1], 3, "s"
     yield "then_empty_l", lambda: zero >> s, lambda: zero, 2, "s"
     yield "then_empty_r", lambda: s >> zero, lambda: zero, 2, "s"
     yield "diagram_plus_unit", lambda: s1 + zero, lambda: S.cls.sum([s1]), 1, "s"
@@ -299,7 +316,8 @@ def run(tier, seed, replay=None):
         "terms when the left factor has >= 2 terms: theorems then/tensor_distrib_l_partial "
         "(left factor <= 1 term) and _perm (all sums) are proved, the full statement is refuted "
         "in Lean (not_thenDistribL) and reported as known finding F15 by the oracle",
-        "tensor.Diagram, quantum.circuit.Circuit, zx.Diagram and cat.Arrow are exercised by the "
+        "tensor.Diagram, quantum Circuit, zx.Diagram, biclosed.Diagram, cartesian.Diagram (no dagger "
+        "laws there: python-function boxes have no dagger) and cat.Arrow are exercised by the "
         "law stream on the real code only (the theorems are about the generic Diagram model; the "
         "subclass upgrade is `same data`)",
     ]
@@ -449,7 +467,7 @@ def run(tier, seed, replay=None):
 
         # ---------------------------------------------------------------- other classes (real code)
         n_sem = 25 if quick else 300
-        streams = [("cat", None)] + [(n, Sem(n)) for n in ("tensor", "circuit", "zx")]
+        streams = [("cat", None)] + [(n, Sem(n)) for n in ("tensor", "circuit", "zx", "biclosed", "cartesian")]
         for name, S in streams:
             for k in range(n_sem):
                 r = random.Random(rng.getrandbits(64))
